@@ -7,7 +7,8 @@ PROP = "C04"
 LEVEL = "exploration"
 RULE = ("Hypothesis scenarios restricted to deterministic objectives (LIN/SINLIN/ROSEN/HASHED/BOXDOMAIN, no noise) "
         "and nsamples == 1, with all bound kinds, soft/hard restarts, regulariser, tiny budgets. The harness recomputes "
-        "sum(r^2)+h(x) for every recorded call. Non-trivial = the best recorded evaluation is not the last one of the "
+        "sum(r^2)+h(x) for every recorded call. Every-iteration form: once per main-loop iteration the best value the model "
+        "holds (incumbent or saved point) must not exceed the minimum over the calls made so far. Non-trivial = the best recorded evaluation is not the last one of the "
         "run's accepted sequence (a saved/discarded point mattered: best index < last index), or the run ended on a "
         "route other than the two plain successes, or restarted. Distinct = SHA-1 of the case JSON.")
 ASSUMPTIONS = ["comparison allows 4 eps relative (the solver sums squares with np.dot, the harness too)",
@@ -19,7 +20,9 @@ PROF = sc.make_prof(fams=["lin", "sinlin", "rosen", "hashed", "hashed", "boxdoma
 
 def run(case):
     res = CaseResult()
-    o = sc.run_solve(case)
+    o = sc.run_solve(case, iter_hook=cl.iteration_hook(case, check_c03=False, check_c04=True))
+    for clause, detail in o.iter_fail:
+        res.fail(clause, detail)
     vals = cl.c04(case, o, res)
     r = cl.route(o)
     res.classes.append("route:" + r)
